@@ -238,6 +238,62 @@ def correspond(ctx):
             dis.append({"kind": "streamed: outcomes of the session", "input": r["desc"], "model": m[0][:100], "impl": exp_outs})
         elif r["raw"] is not None and m[1] != common.hexb(r["raw"]):
             dis.append({"kind": "streamed: file bytes", "input": r["desc"], "model": f"{(len(m[1]) - 1) // 2} bytes", "impl": f"{len(r['raw'])} bytes"})
+    # ---- round 5: pairings vs Model/Pairing.v
+    ctx.extra["rule"] += (" || PAIRINGS: the cross product of 14 ways of building a header whose PointFormat carries 0-4 extra dimensions (constructor on a "
+                          "format object / on a copy / without version, laspy.create, add_extra_dims at once / one by one, point_format setter, "
+                          "set_version_and_point_format, laspy.convert, deepcopy, laspy.read / laspy.open of a written file, constructor on the format of a file "
+                          "that was read, LasData.add_extra_dims; user VLRs put before or after), 8 relations of the record's format to the header's (same "
+                          "object, equal copy, equal rebuilt, same dimensions in another ORDER, same size other type / element count, renamed, one dropped, "
+                          "other id) and 4 entry points (LasData(h, points=), las.points =, laspy.open mode w, LasWriter); stale point_count; "
+                          "ScaleAwarePointRecord; several dimensions of one type so that exchanged values keep their size. Model: accepted or refused, the "
+                          "VLR list as written, the dimensions and the values read back under every name. || SIZE: a LasData of 2^20+k points in every run")
+    ps = [r for r in pairings(ctx) if r.get("cmd")]
+    mo = common.run_model([r["cmd"] for r in ps], name="c04")
+    for r, line in zip(ps, mo):
+        ctx.traces += 1
+        m = line.split(" ")
+        acc = r["outcome"] == "accepted"
+        if m[0] == "refused":
+            if acc:
+                dis.append({"kind": "pairing: a record of another point format is accepted", "input": r["desc"], "model": line[:60], "impl": r["outcome"]})
+            continue
+        if m[0] != "ok":
+            if acc:
+                dis.append({"kind": "pairing: outcome", "input": r["desc"], "model": line[:80], "impl": r["outcome"]})
+            continue
+        if not acc:
+            dis.append({"kind": "pairing: a record of an equal point format is refused", "input": r["desc"], "model": "ok", "impl": r["outcome"]})
+            continue
+        raw = r["raw"]
+        try:
+            ph = lasio.parse_raw(raw)
+            got_v, _ = lasio.raw_walk_vlrs(raw, ph["header_size"], ph["nvlrs"], False)
+            got_v = [(u.split(b"\0")[0], i, d.split(b"\0")[0], pl) for u, i, d, pl in got_v]
+        except Exception as ex:
+            dis.append({"kind": "pairing: VLRs of the written file", "input": r["desc"], "model": m[1][:80], "impl": f"{type(ex).__name__}: {ex}"})
+            continue
+        if lasio.parse_vlrs(m[1]) != got_v:
+            dis.append({"kind": "pairing: VLRs of the written file", "input": r["desc"],
+                        "model": str([(u, i, len(pl)) for u, i, _, pl in lasio.parse_vlrs(m[1])]), "impl": str([(u, i, len(pl)) for u, i, _, pl in got_v])})
+            continue
+        back = r.get("back")
+        if back is None:
+            dis.append({"kind": "pairing: read of the written file", "input": r["desc"], "model": "ok", "impl": str(r["problems"][:1])})
+            continue
+        if edims_tok(back.point_format) != m[2]:
+            dis.append({"kind": "pairing: dimensions read back", "input": r["desc"], "model": m[2][:200], "impl": str(edims_tok(back.point_format))[:200]})
+            continue
+        if common.unhex(m[3]) != lasio.rec_bytes(back.points):
+            dis.append({"kind": "pairing: records read back", "input": r["desc"], "model": m[3][:80], "impl": common.hexb(lasio.rec_bytes(back.points))[:80]})
+            continue
+        if m[4] != "-" and len(back.points):
+            for ent in m[4].split(","):
+                nm, vals = ent.split(":")
+                name = common.unhex(nm).decode("utf-8")
+                have = np.ascontiguousarray(back.points.array[name]).tobytes() if name in (back.points.array.dtype.names or ()) else None
+                if have != common.unhex(vals):
+                    dis.append({"kind": "pairing: values read back under a dimension name", "input": dict(r["desc"], dimension=name), "model": vals[:80], "impl": "missing" if have is None else common.hexb(have)[:80]})
+                    break
     return dis
 
 
@@ -354,6 +410,18 @@ def search(ctx, seeds):
                 add("streamed: write after read is not idempotent", d, f"lengths {len(r['raw'])} then {len(b2.getvalue())}")
         except Exception as ex:
             add("streamed: write after read is not idempotent", d, f"rewrite raised {type(ex).__name__}: {ex}")
+    for r in pairings(ctx):
+        d = r["desc"]
+        ctx.case(repr(d), nontrivial=bool(d.get("points")) and bool(d["extra_dimensions"]))
+        ctx.count("pairing:route:" + d["header_built_by"].split("(")[0].split(";")[-1].strip())
+        ctx.count("pairing:" + d["record_format"] + "->" + str(r.get("outcome", "not run")).split(":")[0])
+        for kind, why in r["problems"][:2]:
+            add("paired: " + kind, d, why)
+    for d, probs in big_round_trips(ctx):
+        ctx.case(repr(d), nontrivial=True)
+        ctx.count("size:round-trip:" + ("2^20+k" if d["points"] > (1 << 20) else "multiple-of-65536"))
+        for kind, why in probs[:2]:
+            add("large record: " + kind, d, why)
     for las, budget, size, raised, same in failing_write_cases(ctx):
         ctx.case(("failing-write", budget, size), nontrivial=True)
         ctx.count("failing-write")
@@ -361,7 +429,7 @@ def search(ctx, seeds):
             add("a failed write left the caller's record modified", {"version": str(las.header.version), "format": las.header.point_format.id, "points": len(las.points),
                                                                      "fails_after_bytes": budget, "file_size": size},
                 "the destination raised OSError during the write; the scale-aware record (rescaled in place for the write) was not restored")
-    return failing[:10]
+    return failing[:12]
 
 
 def laspy_read(raw):
@@ -747,3 +815,467 @@ def streamed(ctx):
 def replay(ctx, data):
     print("replay: re-run ./check C01 with the same VERIF_SEED; the failing case is described in the file")
     return 0
+
+
+# =====================================================================================================================
+# round 5: every way of BUILDING the two objects that are written - a header whose PointFormat carries extra dimensions, made
+# by the constructor / laspy.create / the point_format setter / set_version_and_point_format / laspy.convert / deepcopy / read from
+# a file, and a record built on a format that is the same object / equal / the same dimensions in another ORDER / same size but
+# another type / ... - PAIRED through every entry point: LasData(header, points=rec), las.points = rec, laspy.open(mode='w') /
+# LasWriter.write_points. What is written is read back: the header's format (names, types, ORDER, scales, descriptions), the
+# records, and under every dimension NAME the values the caller's record held under it; a refused pairing changes nothing.
+# Model: Model/Pairing.v (`pair` of bin/lasmodel_c04).
+# =====================================================================================================================
+import copy as _copy
+
+HEADER_ROUTES = [
+    "LasHeader(version=v, point_format=fmt)", "LasHeader(point_format=fmt)", "LasHeader(version=v, point_format=copy.deepcopy(fmt))",
+    "laspy.create(point_format=fmt, file_version=v)", "LasHeader(version=v, point_format=id); h.add_extra_dims(params)",
+    "LasHeader(version=v, point_format=id); h.add_extra_dim(p) one by one", "h.point_format = fmt", "h.set_version_and_point_format(v, fmt)",
+    "laspy.convert(src, point_format_id=id).header", "copy.deepcopy(h0)", "laspy.read(<file of h0>).header", "laspy.open(<file of h0>).header",
+    "LasHeader(version=v, point_format=laspy.read(<file of h0>).point_format)", "LasData(LasHeader(version=v, point_format=id)).add_extra_dims(params)",
+]
+RELATIONS = ["same object", "equal copy", "equal rebuilt", "permuted", "same size other type", "renamed", "one dropped", "other id",
+             "permuted, re-made for the header's format with PackedPointRecord.from_point_record"]
+ENTRIES = ["LasData(h, points=rec).write(dest)", "las = LasData(h); las.points = rec; las.write(dest)",
+           "laspy.open(dest, mode='w', header=h).write_points(rec)", "laspy.LasWriter(dest, h).write_points(rec)"]
+_BASE_T = ["u1", "i1", "u2", "i2", "u4", "i4", "u8", "i8", "f4", "f8"]      # ASPRS LAS 1.4 R15 table 24, data types 1..10 (x2: 11..20, x3: 21..30)
+
+
+def rand_dim_specs(rng, k):
+    """k extra dimensions as plain data (so that the same dimensions can be rebuilt in another order / with one attribute changed)"""
+    specs = []
+    twin = rng.choice(_BASE_T) if rng.random() < 0.5 else None        # several dimensions of one type: exchanged values keep their size
+    for j in range(k):
+        if rng.random() < 0.12:
+            t, n, sc = f"{rng.choice([4, 5, 7, 8, 9, 16, 17])}u1", 0, False
+        else:
+            n = rng.choice([1, 1, 1, 2, 3])
+            b = twin if (twin and rng.random() < 0.7) else rng.choice(_BASE_T)
+            t = (str(n) if n > 1 else "") + b
+            sc = rng.random() < 0.3
+        nm = f"q{j}" + lasio.rand_ascii(rng, rng.choice([0, 1, 6, 20]), [c for c in range(97, 123)])
+        spec = {"name": nm, "type": t, "description": lasio.rand_ascii(rng, rng.choice([0, 0, 4, 32]), [c for c in range(65, 91)]), "scales": None, "offsets": None}
+        if sc:
+            spec["scales"] = [rng.choice([0.5, 0.01, 2.0, 1.0]) for _ in range(n)]
+            spec["offsets"] = [rng.choice([0.0, 10.0, -3.5]) for _ in range(n)]
+        specs.append(spec)
+    return specs
+
+
+def params_of(spec):
+    import laspy
+    return laspy.ExtraBytesParams(spec["name"], spec["type"], description=spec["description"],
+                                  scales=None if spec["scales"] is None else np.array(spec["scales"], dtype=np.float64),
+                                  offsets=None if spec["offsets"] is None else np.array(spec["offsets"], dtype=np.float64))
+
+
+def format_of(pid, specs):
+    import laspy
+    pf = laspy.PointFormat(pid)
+    for s in specs:
+        pf.add_extra_dimension(params_of(s))
+    return pf
+
+
+def full_key(pf):
+    """a point format as the property sees it: id; name, kind, bits, element count, scales, offsets and description of every extra
+    dimension, IN ORDER (independent of PointFormat.__eq__)"""
+    return (lasio.format_key(pf), tuple(d.description for d in pf.extra_dimensions))
+
+
+def edim_tok(d):
+    """DimensionInfo -> the model's descriptor (the syntax of the C13 driver); None when the type is outside the 30 + opaque"""
+    letter = {"UnsignedInteger": "u", "SignedInteger": "i", "FloatingPoint": "f"}.get(d.kind.name)
+    n = int(d.num_elements)
+    eb = int(d.num_bits) // (8 * n) if n else 0
+    b = f"{letter}{eb}"
+    if b in _BASE_T and 1 <= n <= 3:
+        t = f"s{_BASE_T.index(b) + 1 + 10 * (n - 1)}"
+    elif b == "u1" and 4 <= n <= 255:
+        t = f"o{n}"
+    else:
+        return None
+    sc = "-"
+    if d.scales is not None or d.offsets is not None:
+        s = d.scales if d.scales is not None else np.ones(n)
+        o = d.offsets if d.offsets is not None else np.zeros(n)
+        sc = common.zl(lasio.f64bits(x) for x in s) + "/" + common.zl(lasio.f64bits(x) for x in o)
+    return f"x{d.name.encode('utf-8').hex()}~{t}~{sc}~x{d.description.encode('utf-8').hex()}"
+
+
+def edims_tok(pf):
+    toks = [edim_tok(d) for d in pf.extra_dimensions]
+    if any(t is None for t in toks):
+        return None
+    return "+".join(toks) if toks else "-"
+
+
+def _decorate(rng, h):
+    """field values that must survive, on a header made by one of the routes"""
+    sc = rng.choice([0.001, 0.01, 0.5, 1.0])
+    h.scales = np.array([sc, rng.choice([sc, 0.25]), rng.choice([sc, 2.0])])
+    h.offsets = np.array([rng.choice([0.0, -1e6, 123456.789]) for _ in range(3)])
+    h.system_identifier = lasio.rand_ascii(rng, rng.choice([0, 5, 32]))
+    h.file_source_id = rng.randrange(65536)
+    if rng.random() < 0.4:
+        h.point_count = rng.choice([1, 3, 1000])       # stale with respect to the record it will be paired with
+
+
+def _user_vlrs(rng):
+    return [lasio.rand_vlr(rng, 30) for _ in range(rng.choice([0, 0, 1, 2]))]
+
+
+def build_header(rng, route, version, pid, specs):
+    """(header, LasData owning it or None, user VLRs, extra-bytes VLR after the user VLRs?, log lines). The user VLRs are put where the
+    route allows: before the format is given (the builder re-synchronises: extra-bytes VLR last) or after (extra-bytes VLR first)."""
+    import laspy
+    users = _user_vlrs(rng)
+    log = []
+    las = None
+
+    def h0_with_dims():
+        h0 = laspy.LasHeader(version=version, point_format=pid)
+        for v in users:
+            h0.vlrs.append(v)
+        h0.add_extra_dims([params_of(s) for s in specs])
+        return h0
+
+    def file_of(h0):
+        n0 = rng.choice([0, 2])
+        return lasio.write_las(h0, lasio.rand_points(rng, h0, n0))
+    eb_last = False
+    after = True           # user VLRs appended after the header is built
+    if route == HEADER_ROUTES[0]:
+        h = laspy.LasHeader(version=version, point_format=format_of(pid, specs))
+    elif route == HEADER_ROUTES[1]:
+        h = laspy.LasHeader(point_format=format_of(pid, specs))
+    elif route == HEADER_ROUTES[2]:
+        h = laspy.LasHeader(version=version, point_format=_copy.deepcopy(format_of(pid, specs)))
+    elif route == HEADER_ROUTES[3]:
+        las = laspy.create(point_format=format_of(pid, specs), file_version=version)
+        h = las.header
+    elif route == HEADER_ROUTES[4]:
+        h = laspy.LasHeader(version=version, point_format=pid)
+        h.add_extra_dims([params_of(s) for s in specs])
+    elif route == HEADER_ROUTES[5]:
+        h = laspy.LasHeader(version=version, point_format=pid)
+        for s in specs:
+            h.add_extra_dim(params_of(s))
+    elif route == HEADER_ROUTES[6]:
+        h = laspy.LasHeader(version=version, point_format=pid)
+        for v in users:
+            h.vlrs.append(v)
+        h.point_format = format_of(pid, specs)
+        eb_last, after = True, False
+    elif route == HEADER_ROUTES[7]:
+        h = laspy.LasHeader(version="1.4", point_format=6)
+        for v in users:
+            h.vlrs.append(v)
+        h.set_version_and_point_format(laspy.header.Version.from_str(version), format_of(pid, specs))
+        eb_last, after = True, False
+    elif route == HEADER_ROUTES[8]:
+        pid0 = rng.choice([i for i in lasio.COMPAT[version]])
+        h0 = laspy.LasHeader(version=version, point_format=pid0)
+        for v in users:
+            h0.vlrs.append(v)
+        h0.add_extra_dims([params_of(s) for s in specs])
+        src = laspy.LasData(h0, points=laspy.PackedPointRecord.zeros(rng.choice([0, 1, 3]), h0.point_format))   # what conversion does to values is C12's
+        las = laspy.convert(src, point_format_id=pid)
+        h = las.header
+        log.append(f"src: {version} format {pid0}, {len(src.points)} points")
+        eb_last, after = True, False
+    elif route == HEADER_ROUTES[9]:
+        h = _copy.deepcopy(h0_with_dims())
+        eb_last, after = True, False
+    elif route == HEADER_ROUTES[10]:
+        las = laspy.read(io.BytesIO(file_of(h0_with_dims())))
+        h = las.header
+        eb_last, after = True, False
+    elif route == HEADER_ROUTES[11]:
+        with laspy.open(io.BytesIO(file_of(h0_with_dims()))) as r:
+            h = r.header
+        eb_last, after = True, False
+    elif route == HEADER_ROUTES[12]:
+        h = laspy.LasHeader(version=version, point_format=laspy.read(io.BytesIO(file_of(h0_with_dims()))).point_format)
+    else:
+        las = laspy.LasData(laspy.LasHeader(version=version, point_format=pid))
+        las.add_extra_dims([params_of(s) for s in specs])
+        h = las.header
+    if after:
+        for v in users:
+            h.vlrs.append(v)
+    if not specs:
+        eb_last = False
+    _decorate(rng, h)
+    return h, las, users, eb_last, log
+
+
+def related_format(rng, rel, h, specs):
+    """the PointFormat the record is built on, in the given relation to the header's"""
+    import laspy
+    pid = h.point_format.id
+    k = len(specs)
+    if rel == "same object":
+        return h.point_format, "h.point_format itself"
+    if rel == "equal copy":
+        return _copy.deepcopy(h.point_format), "copy.deepcopy(h.point_format)"
+    if rel == "equal rebuilt":
+        return format_of(pid, specs), "the same dimensions added to a fresh PointFormat in the same order"
+    if rel == "permuted" and k >= 2:
+        order = list(range(k))
+        how = rng.choice(["reversed", "rotated", "two exchanged"])
+        if how == "reversed":
+            order.reverse()
+        elif how == "rotated":
+            order = order[1:] + order[:1]
+        else:
+            i, j = rng.sample(range(k), 2)
+            order[i], order[j] = order[j], order[i]
+        return format_of(pid, [specs[i] for i in order]), f"the same dimensions in another order ({how}: {[specs[i]['name'] for i in order]})"
+    if rel == "same size other type" and k >= 1:
+        j = rng.randrange(k)
+        dt = np.dtype(specs[j]["type"])
+        base, n = dt.base, (dt.shape[0] if dt.ndim == 1 else 1)
+        cands = []
+        if base.kind in "ui" and n <= 3:
+            cands.append((str(n) if n > 1 else "") + ("i" if base.kind == "u" else "u") + str(base.itemsize))
+        if n <= 3 and (base.kind == "f" or base.itemsize in (4, 8)):
+            cands.append((str(n) if n > 1 else "") + ("u" if base.kind == "f" else "f") + str(base.itemsize))
+        if n == 1 and base.itemsize in (2, 4, 8) and base.kind in "ui":
+            cands.append("2" + base.kind + str(base.itemsize // 2))
+        if n == 2 and base.itemsize in (1, 2, 4) and base.kind in "ui":
+            cands.append(base.kind + str(base.itemsize * 2))
+        if n > 3 and base.kind == "u" and base.itemsize == 1 and n in (4, 8):
+            cands.append("u" + str(n))
+        cands = [c for c in cands if np.dtype(c).itemsize == dt.itemsize and c != specs[j]["type"]]
+        if cands:
+            alt = dict(specs[j], type=rng.choice(cands), scales=None, offsets=None)
+            return format_of(pid, specs[:j] + [alt] + specs[j + 1:]), f"dimension {specs[j]['name']!r} of type {alt['type']} instead of {specs[j]['type']} (same width)"
+    if rel == "renamed" and k >= 1:
+        j = rng.randrange(k)
+        alt = dict(specs[j], name=(specs[j]["name"] + "x")[:32])
+        return format_of(pid, specs[:j] + [alt] + specs[j + 1:]), f"dimension {specs[j]['name']!r} called {alt['name']!r}"
+    if rel == "one dropped" and k >= 1:
+        return format_of(pid, specs[:-1]), f"without the last dimension {specs[-1]['name']!r}"
+    others = [i for i in lasio.COMPAT[str(h.version)] if i != pid] or [i for i in range(11) if i != pid]
+    return format_of(rng.choice(others), specs), "the same extra dimensions on another point format id"
+
+
+def _hsnap(h):
+    return (repr(sorted(lasio.header_assoc(h).items())), [lasio.vlr_tuple(v) for v in h.vlrs], full_key(h.point_format))
+
+
+def _rsnap(rec):
+    return (lasio.rec_bytes(rec), full_key(rec.point_format), str(rec.array.dtype), tuple(map(float, getattr(rec, "scales", []))), tuple(map(float, getattr(rec, "offsets", []))))
+
+
+def pairing_case(rng, route, rel, entry, tmpdir=None):
+    """one header (route) x one record (relation) x one entry point, executed and judged; returns a dict"""
+    import laspy
+    version = rng.choice(lasio.VERSIONS)
+    pid = rng.choice(lasio.COMPAT[version])
+    k = rng.choice([1, 2, 2, 3, 3, 4]) if rel != "same object" or rng.random() < 0.9 else 0
+    if rel in ("permuted", RELATIONS[8]):
+        k = rng.choice([2, 2, 3, 4])
+    specs = rand_dim_specs(rng, k)
+    res = {"problems": [], "cmd": None}
+    desc = {"header_built_by": route, "record_format": rel, "entry": entry, "format": pid,
+            "extra_dimensions": [(s["name"], s["type"], s["scales"] is not None) for s in specs]}
+    res["desc"] = desc
+    try:
+        h, las0, users, eb_last, log = build_header(rng, route, version, pid, specs)
+    except Exception as ex:
+        res["problems"].append(("building the header failed", f"{type(ex).__name__}: {ex}"))
+        return res
+    desc["version"] = str(h.version)
+    want = full_key(format_of(pid, specs))
+    if full_key(h.point_format) != want:
+        res["problems"].append(("the header does not carry the point format it was built from", f"{full_key(h.point_format)} instead of {want}"))
+        return res
+    remade = rel == RELATIONS[8]
+    rfmt, how = related_format(rng, "permuted" if remade else rel, h, specs)
+    desc["record_built_on"] = how
+    legal = remade or full_key(rfmt) == full_key(h.point_format)
+    n = rng.choice([1, 1, 2, 7]) if not legal else rng.choice([0, 1, 2, 7])
+    rec = lasio.rand_points(rng, sessions._Shim(rfmt), n)
+    if remade:
+        # the legal way of bringing a record of another layout under this header: a new record in the header's layout, values copied by NAME
+        src_rec = rec
+        try:
+            rec = laspy.PackedPointRecord.from_point_record(src_rec, h.point_format)
+        except Exception as ex:
+            res["problems"].append(("PackedPointRecord.from_point_record failed", f"{type(ex).__name__}: {ex}"))
+            return res
+        for nm in (src_rec.array.dtype.names if n else ()):
+            if np.ascontiguousarray(src_rec.array[nm]).tobytes() != np.ascontiguousarray(rec.array[nm]).tobytes():
+                res["problems"].append(("PackedPointRecord.from_point_record does not keep the values of a dimension", f"dimension {nm!r}"))
+                return res
+        rfmt = h.point_format
+        desc["record_built_on"] += ", then PackedPointRecord.from_point_record(that record, h.point_format)"
+    if n and rng.random() < 0.25:
+        rec = laspy.ScaleAwarePointRecord(rec.array, rfmt, np.array(h.scales), np.array(h.offsets))
+        desc["record_kind"] = "ScaleAwarePointRecord in the header's scaling"
+    desc["points"] = n
+    hfmt_key = full_key(h.point_format)
+    hs0, rs0 = _hsnap(h), _rsnap(rec)
+    dest = io.BytesIO()
+    stage = "pairing"
+    las = None
+    try:
+        if entry == ENTRIES[0]:
+            las = laspy.LasData(h, points=rec)
+            stage = "write"
+            hs1 = _hsnap(h)
+            las.write(dest)
+        elif entry == ENTRIES[1]:
+            las = las0 if las0 is not None else laspy.LasData(h)
+            las.points = rec
+            stage = "write"
+            hs1 = _hsnap(h)
+            las.write(dest)
+        elif entry == ENTRIES[2]:
+            w = laspy.open(dest, mode="w", header=h, closefd=False)
+            hs1 = _hsnap(h)
+            try:
+                w.write_points(rec)
+                stage = "write"
+            finally:
+                w.close()
+        else:
+            w = laspy.LasWriter(dest, h, closefd=False)
+            hs1 = _hsnap(h)
+            try:
+                w.write_points(rec)
+                stage = "write"
+            finally:
+                w.close()
+        outcome = "accepted"
+    except Exception as ex:
+        outcome = f"refused at {stage}: {type(ex).__name__}: {str(ex)[:80]}"
+        res["exc"] = common.exc_kind(ex)
+    res["outcome"] = outcome
+    res["legal"] = legal
+    # ---- the model's view of the same pairing
+    ht, rt = edims_tok(h.point_format), edims_tok(rfmt)
+    if ht is not None and rt is not None and full_key(h.point_format) == hfmt_key:
+        res["cmd"] = (f"pair {h.point_format.id} {ht} {lasio.vlrs_tok(users)} {'T' if eb_last else 'F'} {rfmt.id} {rt} "
+                      f"{int(rec.array.dtype.itemsize)} {common.hexb(lasio.rec_bytes(rec))}")
+    if outcome != "accepted":
+        if legal:
+            res["problems"].append(("a record of an equal point format is refused", outcome))
+        if (stage == "pairing" or entry in (ENTRIES[2], ENTRIES[3])) and _hsnap(h) != hs0:
+            res["problems"].append(("a refused pairing modified the caller's header", "snapshot of the header differs after the refused call"))
+        if _rsnap(rec) != rs0:
+            res["problems"].append(("a refused pairing modified the caller's record", "snapshot of the record differs after the refused call"))
+        return res
+    raw = dest.getvalue()
+    res["raw"] = raw
+    if _rsnap(rec) != rs0:
+        res["problems"].append(("write modified the caller's object", "snapshot of the record differs after it was written"))
+    if entry in (ENTRIES[0], ENTRIES[1]):
+        if _hsnap(h) != hs1:
+            res["problems"].append(("write modified the caller's object", "snapshot of the header differs after LasData.write"))
+    elif _hsnap(h) != hs1:
+        res["problems"].append(("write modified the caller's object", "snapshot of the header the writer was opened with differs after write_points / close"))
+    layout = [nm for nm in rec.array.dtype.names]
+    try:
+        back = laspy_read(raw)
+    except Exception as ex:
+        res["problems"].append(("written file cannot be read", f"{type(ex).__name__}: {ex}"))
+        return res
+    res["back"] = back
+    if full_key(back.point_format) != hfmt_key:
+        a, b = full_key(back.point_format), hfmt_key
+        what = "point format differs after round trip" if a[0] != b[0] else "descriptions of the extra dimensions differ after round trip"
+        res["problems"].append((what, f"read back {a[0][1]}, the header that was written had {b[0][1]}"))
+    if len(back.points) != n or back.header.point_count != n:
+        res["problems"].append(("point count differs after round trip", f"header {back.header.point_count}, records {len(back.points)}, written {n}"))
+    if lasio.rec_bytes(back.points) != rs0[0]:
+        res["problems"].append(("records differ after round trip", f"{len(back.points)} records of {back.points.array.dtype.itemsize} bytes read, {n} of {rec.array.dtype.itemsize} written; bytes differ"))
+    bnames = back.points.array.dtype.names or ()
+    for nm in layout:
+        if not n:
+            break
+        a = np.ascontiguousarray(np.atleast_1d(rec.array)[nm])
+        if nm not in bnames:
+            res["problems"].append(("a dimension of the record is missing after round trip", f"{nm!r} was written, the file has {list(bnames)[-6:]}"))
+            break
+        b = np.ascontiguousarray(back.points.array[nm])
+        if a.tobytes() != b.tobytes() or a.dtype != b.dtype:
+            res["problems"].append(("values of a dimension differ after round trip",
+                                    f"dimension {nm!r}: the record held {a.tolist()[:3]} ({a.dtype}), read back {b.tolist()[:3]} ({b.dtype}); the extra dimensions of the record's memory are laid out "
+                                    f"{[d.name for d in rfmt.extra_dimensions]} under a header describing {[d.name for d in h.point_format.extra_dimensions]}"))
+            break
+    b2 = io.BytesIO()
+    try:
+        back.write(b2)
+        if b2.getvalue() != raw:
+            res["problems"].append(("write after read is not idempotent", f"lengths {len(raw)} then {len(b2.getvalue())}"))
+    except Exception as ex:
+        res["problems"].append(("write after read is not idempotent", f"rewrite raised {type(ex).__name__}: {ex}"))
+    return res
+
+
+_PAIR = None
+
+
+def pairings(ctx):
+    """the cross product routes x relations x entries, once each in the quick tier (random version / format / dimensions / counts),
+    several times in the thorough tier"""
+    global _PAIR
+    if _PAIR is None:
+        streamed(ctx)
+        _PAIR = []
+        for _ in range(ctx.n(1, 8)):
+            for route in HEADER_ROUTES:
+                for rel in RELATIONS:
+                    for entry in ENTRIES:
+                        _PAIR.append(pairing_case(ctx.rng, route, rel, entry))
+    return _PAIR
+
+
+def big_round_trips(ctx):
+    """SIZE: a LasData of just over 2^20 points (every run), of exact multiples of 65536 incl. strided selections: written at once,
+    read back at once and in pieces of 65536"""
+    import laspy
+    out = []
+    rng = ctx.rng
+    plan = [((1 << 20) + rng.choice([1, 2, 5]), "1.2", 0, 1), (2 * 65536, rng.choice(lasio.VERSIONS), 0, 2), (65536, "1.4", 6, -1)]
+    if rng.random() < 0.5:
+        plan.append((rng.choice([1 << 20, (1 << 20) - 1, (1 << 20) + 65536]), rng.choice(lasio.VERSIONS), 0, 1))
+    if ctx.thorough():
+        plan += [((1 << 21) + 3, "1.4", 6, 1), (16 * 65536, "1.3", 1, 3), ((1 << 20) + 65536, "1.1", 1, 1)]
+    for n, v, f, stride in plan:
+        h = lasio.rand_header(rng, version=v, fmt=f, nvlrs=0)
+        seed = rng.randrange(2 ** 32)
+        rec = sessions.bulk_records(seed, n, h.point_format, stride)
+        d = {"version": v, "format": f, "points": n, "numpy_seed": seed, "stride": stride,
+             "reproduce": "rec = sessions.bulk_records(numpy_seed, points, PointFormat(format), stride); LasData(LasHeader(version, format), points=rec).write(BytesIO())"}
+        probs = []
+        try:
+            las = laspy.LasData(h, points=rec)
+            b = io.BytesIO()
+            las.write(b)
+            raw = b.getvalue()
+            want = lasio.rec_bytes(rec)
+            off = int.from_bytes(raw[96:100], "little")
+            cnt = int.from_bytes(raw[247:255], "little") if v == "1.4" else int.from_bytes(raw[107:111], "little")
+            if cnt != n or len(raw) != off + n * h.point_format.size:
+                probs.append(("point count differs after round trip", f"{n} records written at once, the header of the file says {cnt}, the file holds {(len(raw) - off) // h.point_format.size}"))
+            if raw[off:] != want:
+                probs.append(("records differ after round trip", "the record bytes in the file differ from the record that was written"))
+            try:
+                back = laspy_read(raw)
+                if lasio.rec_bytes(back.points) != want:
+                    probs.append(("records differ after round trip", f"{len(back.points)} records read back, {n} written; bytes differ"))
+                with laspy.open(io.BytesIO(raw)) as r:
+                    got = b"".join(lasio.rec_bytes(p) for p in r.chunk_iterator(65536))
+                if got != want:
+                    probs.append(("records differ through chunk_iterator", f"{len(got)} bytes read in pieces of 65536 points, {len(want)} written; contents differ"))
+            except Exception as ex:
+                probs.append(("written file cannot be read", f"{type(ex).__name__}: {ex}"))
+        except Exception as ex:
+            probs.append(("write failed: " + type(ex).__name__, f"{type(ex).__name__}: {ex}"))
+        out.append((d, probs))
+    return out
